@@ -328,3 +328,57 @@ func (ex *Exec) jsonIntoFlatStruct(text string, p PtrV, elem types.Type) (Val, b
 	ex.store(p, StructV{F: f})
 	return IfaceV{}, true
 }
+
+// ---------- x/staking types.Validator (built by the operator module for the SDK's staking interface) ----------
+
+const pkStaking = "github.com/cosmos/cosmos-sdk/x/staking/types"
+
+func init() {
+	reg(pkStaking+".NewValidator", func(ex *Exec, a []Val) Val {
+		// NewValidator(operator sdk.ValAddress, pubKey cryptotypes.PubKey, description Description)
+		pk := a[1].(IfaceV)
+		if pk.T == nil {
+			return TupleV{ex.zero(ex.namedType(pkStaking, "Validator")), ex.newErr("codectypes", "Expecting non nil value to create a new Any")}
+		}
+		anyV := intrinsics[pkCodecT+".NewAnyWithValue"](ex, []Val{pk}).(TupleV)
+		vt := ex.namedType(pkStaking, "Validator")
+		oper := ex.bech32Str("exovaloper", a[0])
+		v := ex.structWith(vt, map[string]Val{
+			"OperatorAddress": oper, "ConsensusPubkey": anyV[0], "Description": a[2],
+			"Tokens": BigV{T: ex.tf.Inti(0)}, "DelegatorShares": DecV{T: ex.tf.Inti(0)}, "MinSelfDelegation": BigV{T: ex.tf.Inti(1)},
+			"Status": ex.tf.BVu(1, 32), // Unbonded
+		})
+		return TupleV{v, IfaceV{}}
+	})
+	getOperator := func(ex *Exec, a []Val) Val {
+		v := a[0].(StructV)
+		s := v.F[fieldIndex(ex.namedType(pkStaking, "Validator"), "OperatorAddress")]
+		if cs, ok := ex.concreteStr(s); ok && cs == "" {
+			return SliceV{Nil: true}
+		}
+		r := ex.fromBech32("exovaloper", s).(TupleV)
+		if iv := r[1].(IfaceV); iv.T != nil {
+			ex.goPanic("Validator.GetOperator: invalid operator address")
+		}
+		return r[0]
+	}
+	reg("("+pkStaking+".Validator).GetOperator", getOperator)
+	reg("("+pkStaking+".Validator).ConsPubKey", func(ex *Exec, a []Val) Val {
+		v := a[0].(StructV)
+		p, _ := v.F[fieldIndex(ex.namedType(pkStaking, "Validator"), "ConsensusPubkey")].(PtrV)
+		if p.C == nil {
+			return TupleV{IfaceV{}, ex.newErr("sdkerrors", "expecting cryptotypes.PubKey, got nil")}
+		}
+		cached := intrinsics["(*"+pkCodecT+".Any).GetCachedValue"](ex, []Val{p}).(IfaceV)
+		if cached.T == nil {
+			return TupleV{IfaceV{}, ex.newErr("sdkerrors", "expecting cryptotypes.PubKey")}
+		}
+		return TupleV{cached, IfaceV{}}
+	})
+	reg("("+pkStaking+".Validator).IsJailed", func(ex *Exec, a []Val) Val {
+		return a[0].(StructV).F[fieldIndex(ex.namedType(pkStaking, "Validator"), "Jailed")]
+	})
+	reg("("+pkStaking+".Validator).GetTokens", func(ex *Exec, a []Val) Val {
+		return a[0].(StructV).F[fieldIndex(ex.namedType(pkStaking, "Validator"), "Tokens")]
+	})
+}
